@@ -694,7 +694,108 @@ def linearizability(W, n):
 
 
 # ---------------------------------------------------------------------------------------------
-REGISTRY = {"C01": c01, "C02": c02, "C03": c03, "C04": c04, "C05": c05, "C09": c09, "C10": c10, "C11": c11, "C12": c12, "C13": c13, "C14": c14, "C15": c15, "C18": c18}
+# C07 / C08: dispatch functions (DispatchOps / DispatchGen / DispatchTrace)
+
+
+def dispatch_gen(W, fam):
+    cfg = 'SPECIFICATION Spec\nCONSTANTS\n  Family = "%s"\n  Tier = "%s"\nINVARIANT Emit\nCHECK_DEADLOCK FALSE\n' % (fam, W.tier)
+    out, viol = W.tlc_exhaustive("DispatchGen", cfg, "gen-" + fam, workers=8, timeout=3000)
+    if viol:
+        raise Infra("DispatchGen: %s violated -- the specification's own invariance theorem fails" % viol)
+    cases = W.scenarios_from(out)
+    for i, c in enumerate(cases):
+        c["id"] = "%s/%d" % (fam.lower(), i)
+        c["kind"] = fam.lower()
+    log("[gen] %s: %d cases enumerated by TLC" % (fam, len(cases)))
+    return cases
+
+
+def all_targets():
+    al = ["/", "a", ".", "?", "#"]
+    ts = [[]] + [[x] for x in al] + [[x, y] for x in al for y in al] + [[x, y, z] for x in al for y in al for z in al]
+    ts += [["/", "a", x, y] for x in al for y in al]
+    return ts
+
+
+def dispatch_pipeline(prop, W, cases, replay=None, assumptions=()):
+    if replay:
+        cases = [json.loads(l) for l in open(os.path.join(replay, "scenario.ndjson")) if l.strip()]
+    index = {c["id"]: c for c in cases}
+    tf = W.path("targets.json")
+    with open(tf, "w") as fh:
+        json.dump(all_targets(), fh)
+    trace = W.drive("TestDispatch", cases, "dispatch", env_extra={"VERIF_TARGETS": tf})
+    v = W.validate(trace, "dispatch", module="DispatchTrace")
+    if v["fired"].get("scenarios", 0) != len(cases):
+        raise Infra("DispatchTrace judged %s cases, driver ran %d" % (v["fired"].get("scenarios"), len(cases)))
+    return judge(prop, W, [v], index, traces=len(cases), samples=[{"case": cases[min(5, len(cases) - 1)], "recorded_events": sample_events_at(trace, 3)}],
+                 assumptions=list(assumptions), extra_cov={"decisions": len(cases) * (len(all_targets()) if prop == "C07" else 8)})
+
+
+def sample_events_at(trace, n):
+    out = []
+    with open(trace) as fh:
+        for i, line in enumerate(fh):
+            if i >= 2 and len(out) < n:
+                out.append(json.loads(line))
+            if len(out) >= n:
+                break
+    return out
+
+
+def random_rule_cases(W, n):
+    rnd = random.Random(W.seed * 2654435761 % (2 ** 31))
+    al = list("/ab.?#-_%")
+    segs = ["/", "/api", "/api/v1", "/static/app.css", "/a.b", "/admin", "/health", "/x/../y", "/%2e%2e/", "/a//b"]
+
+    def lit():
+        if rnd.random() < 0.5:
+            return list(rnd.choice(segs)[: rnd.randint(1, 12)])
+        return [rnd.choice(al) for _ in range(rnd.randint(0, 5))]
+
+    def pat():
+        k = rnd.choice(["exact", "prefix", "suffix", "suffix", "prefix", "reContains", "rePrefix", "reSuffix", "reExact", "reInvalid"])
+        l = lit()
+        if k.startswith("re"):
+            l = [c for c in l if c in "/ab-_"]
+        return {"kind": k, "lit": l}
+    res = []
+    for i in range(n):
+        rules = [{"excl": [pat() for _ in range(rnd.randint(0, 3))], "incl": [pat() for _ in range(rnd.randint(0, 2))]} for _ in range(rnd.randint(0, 3))]
+        own = []
+        for _ in range(40):
+            base = rnd.choice(segs) if rnd.random() < 0.6 else "".join(rnd.choice(al) for _ in range(rnd.randint(0, 8)))
+            r = rnd.random()
+            if r < 0.35:
+                base += "?" + "".join(rnd.choice(al + list(".css")) for _ in range(rnd.randint(0, 8)))
+            elif r < 0.5:
+                base += "#" + "".join(rnd.choice(al) for _ in range(rnd.randint(0, 5)))
+            own.append(list(base))
+        # every literal also appears appended after a '?' to a path (the bypass shape)
+        for r_ in rules:
+            for p_ in r_["excl"]:
+                own.append(list("/secret?x=") + p_["lit"])
+                own.append(list("/secret#") + p_["lit"])
+        res.append({"id": "c07/random/%d" % i, "kind": "c07", "rules": rules, "own": own})
+    return res
+
+
+def c07(W, replay=None):
+    W.build()
+    cases = [] if replay else dispatch_gen(W, "C07") + random_rule_cases(W, 20000 if W.tier == "thorough" else 1500)
+    return dispatch_pipeline("C07", W, cases, replay, ["the verdict is observed through ExtAuthZFilter.Check with a single always-deny mock filter (OK <=> not triggered)",
+                                                       "regular expressions are covered for literal fragments with anchors and for an expression that does not compile"])
+
+
+def c08(W, replay=None):
+    W.build()
+    cases = [] if replay else dispatch_gen(W, "C08")
+    return dispatch_pipeline("C08", W, cases, replay, ["an OIDC filter without cookie serves as the distinguishable denial; whether a filter was reached is observed through its session-store lookup",
+                                                       "header names in requests are lower-case as Envoy delivers them"])
+
+
+# ---------------------------------------------------------------------------------------------
+REGISTRY = {"C01": c01, "C02": c02, "C03": c03, "C04": c04, "C05": c05, "C07": c07, "C08": c08, "C09": c09, "C10": c10, "C11": c11, "C12": c12, "C13": c13, "C14": c14, "C15": c15, "C18": c18}
 
 
 def run(prop, W, replay=None):
